@@ -103,6 +103,10 @@ pub fn ops(args: &[String]) -> i32 {
     for _ in 0..nwords / 2 { texts.push(g.word()); }
     for _ in 0..nwords / 8 { let w = g.word(); texts.push(w.replace('ˈ', "'").replace('ː', ":").replace('.', ";")); }   // documented respellings
     for _ in 0..nwords / 8 { let mut w = g.word(); let at = g.rng.below(w.chars().count() + 1); let junk = ["̥", "ʰ", "q͡", "5", "ː", "^", "ʼ", "ñ", "¢", "G", "?"][g.rng.below(11)]; let b: usize = w.char_indices().nth(at).map(|x| x.0).unwrap_or(w.len()); w.insert_str(b, junk); texts.push(w); }
+    for _ in 0..nwords / 16 {
+        let fronts = ["ŋ^ǃ", "ŋ^!", "ɴ^ǁ", "N^!", "ŋ^ǂ", "ǃ^ɢ", "!^G", "ǂ^N", "ǁ^X", "ǃ^q", "ǀ^ɢ", "ŋǃ", "!G", "ɴ^ʘ", "ǃ^x", "k^ǃ", "ŋ^", "^ǃ"];
+        texts.push(format!("{}{}{}", g.word(), fronts[g.rng.below(fronts.len())], ["a", "i", "", "u.ta"][g.rng.below(4)]));
+    }
     for t in &texts {
         writeln!(ops, "parsew {}", cps(t)).unwrap();
         match guarded(|| asca::verif::WordH::parse(t, &[])) {
